@@ -1,6 +1,7 @@
 (** C03 — lemmas. *)
 From Coq Require Import List NArith Bool Lia String.
 From SV Require Import C13.Model C03.Model.
+From SV Require C13.Proofs.
 Import ListNotations.
 Open Scope N_scope.
 
@@ -283,3 +284,67 @@ Qed.
 
 Lemma ser_h1_no_cookies l : ser_h1 l false [] = headers_of l.
 Proof. induction l as [|[h|] t IH]; cbn; rewrite ?IH; reflexivity. Qed.
+
+(* ------------------------------------------------------------------ *)
+(** * sozu's own HTTP/1 acceptance ([h1_guard]) *)
+
+Definition name_ok (h : header) : bool := negb (is_nil (fst h)) && forallb is_tchar (fst h).
+
+Lemma guard_fields_names s hs : guard_fields s hs = true -> forallb name_ok hs = true.
+Proof.
+  revert s. induction hs as [|[k v] t IH]; intros s H; [reflexivity|].
+  cbn [guard_fields] in H. cbn [forallb]. unfold name_ok at 1. cbn [fst].
+  destruct (is_nil k || negb (forallb is_tchar k)) eqn:E; [discriminate|].
+  apply orb_false_elim in E. destruct E as [E1 E2]. apply negb_false_iff in E2. rewrite E1, E2. cbn [negb andb].
+  repeat match type of H with context [if ?c then _ else _] => destruct c; try discriminate end; eapply IH; eassumption.
+Qed.
+
+Lemma guard_fields_te s hs :
+  guard_fields s hs = true ->
+  forallb (fun v => eq_nc v (B "chunked"%string)) (values_of (B "transfer-encoding"%string) hs) = true /\
+  (List.length (values_of (B "transfer-encoding"%string) hs) <= (if s then 0 else 1))%nat.
+Proof.
+  revert s. induction hs as [|[k v] t IH]; intros s H.
+  - split; [reflexivity|destruct s; cbn; lia].
+  - cbn [guard_fields] in H. unfold values_of. cbn [filter fst].
+    destruct (is_nil k || negb (forallb is_tchar k)); [discriminate|].
+    destruct (eq_nc k (B "transfer-encoding"%string)) eqn:Ete.
+    + destruct s; cbn [orb] in H; [discriminate|].
+      destruct (eq_nc v (B "chunked"%string)) eqn:Ev; cbn [negb] in H; [|discriminate].
+      destruct (IH true H) as [H1 H2]. cbn [map snd forallb List.length]. fold (values_of (B "transfer-encoding"%string) t).
+      rewrite Ev, H1. split; [reflexivity|]. lia.
+    + fold (values_of (B "transfer-encoding"%string) t).
+      destruct (eq_nc k (B "content-length"%string)); [destruct (is_nil v || negb (forallb is_digit v)); [discriminate|]|];
+        apply (IH s H).
+Qed.
+
+Lemma guard_fields_cl s hs :
+  guard_fields s hs = true ->
+  forallb (fun v => negb (is_nil v) && forallb is_digit v) (values_of (B "content-length"%string) hs) = true.
+Proof.
+  revert s. induction hs as [|[k v] t IH]; intros s H; [reflexivity|].
+  cbn [guard_fields] in H. unfold values_of. cbn [filter fst].
+  destruct (is_nil k || negb (forallb is_tchar k)); [discriminate|].
+  destruct (eq_nc k (B "transfer-encoding"%string)) eqn:Ete.
+  - assert (eq_nc k (B "content-length"%string) = false) as ->.
+    { destruct (eq_nc k (B "content-length"%string)) eqn:E; [|reflexivity].
+      rewrite (C13.Proofs.eq_nc_congr k (B "content-length"%string) _ E) in Ete. discriminate Ete. }
+    fold (values_of (B "content-length"%string) t).
+    destruct (s || negb (eq_nc v (B "chunked"%string))); [discriminate|]. apply (IH true H).
+  - destruct (eq_nc k (B "content-length"%string)) eqn:Ecl.
+    + destruct (is_nil v || negb (forallb is_digit v)) eqn:E; [discriminate|].
+      apply orb_false_elim in E. destruct E as [E1 E2]. apply negb_false_iff in E2.
+      cbn [map snd forallb]. fold (values_of (B "content-length"%string) t). rewrite E1, E2, (IH s H). reflexivity.
+    + fold (values_of (B "content-length"%string) t). apply (IH s H).
+Qed.
+
+Lemma name_value_field_ok hs :
+  forallb name_ok hs = true -> forallb (fun h => forallb is_vbyte (snd h)) hs = true ->
+  forallb field_ok hs = true.
+Proof.
+  induction hs as [|h t IH]; [reflexivity|]. cbn [forallb]. intros H1 H2.
+  apply andb_prop in H1. destruct H1 as [Hn H1]. apply andb_prop in H2. destruct H2 as [Hv H2].
+  rewrite (IH H1 H2), andb_true_r. unfold field_ok. unfold name_ok, is_nil in Hn.
+  apply andb_prop in Hn. destruct Hn as [Hn1 Hn2]. rewrite Hn2, Hv.
+  destruct (fst h); [discriminate Hn1|reflexivity].
+Qed.
